@@ -129,6 +129,7 @@ def event(base: Dict[str, Any], sess: Session, ok, exc, timeout=False, extra=Non
         "op": base["op"], "p": base.get("p", []), "q": base.get("q", []),
         "key": base.get("key", ""), "v": base.get("v", ""),
         "shallow": bool(base.get("shallow", False)), "noattrs": bool(base.get("noattrs", False)),
+        "k": int(base.get("k", 0)), "b": int(base.get("b", 0)),
         "ok": ok, "exc": exc or "", "timeout": timeout,
         "view": proj["view"], "visit": proj["visit"],
         "hasraw": False, "raw": [], "viewerr": viewerr,
